@@ -181,16 +181,27 @@ func (b *tokBackend) handle(req *rawhttp.Message, reqErr error, conn net.Conn, b
 	w.Fields(tr.Fields)
 	w.Field("Trailer", "X-Tok-Trailer")
 	w.Field("Transfer-Encoding", "chunked").End()
+	paced := strings.Contains(req.Target, "/paced") // body sent in pieces with pauses: stays in flight for a while
 	if req.Method != "HEAD" {
 		body := tr.Body
-		// two or three chunks so the response is streamed
+		// several chunks so the response is streamed
 		for len(body) > 0 {
 			n := len(body)
 			if n > 16<<10 {
 				n = 16 << 10
 			}
+			if paced && n > 2048 {
+				n = 2048
+			}
 			w.Chunk(body[:n])
 			body = body[n:]
+			if paced {
+				if _, err := conn.Write(w.Bytes()); err != nil {
+					return false
+				}
+				w.Reset()
+				time.Sleep(8 * time.Millisecond)
+			}
 		}
 		w.LastChunk(tr.Trailer)
 	}
@@ -206,10 +217,21 @@ func (b *tokBackend) Seen() []backendSeen {
 
 func (b *tokBackend) MaxInFlight() int { b.mu.Lock(); defer b.mu.Unlock(); return b.maxIn }
 
-// tokRequest builds the raw request for a token.
+// tokRequest builds the raw request for a token. A field named ":paced" in
+// extra (not sent) asks the backend to dribble the response body.
 func tokRequest(method, tok string, respSize, delayMs int, host string, body []byte, extra []rawhttp.Field) []byte {
 	var w rawhttp.Builder
-	w.Line(fmt.Sprintf("%s /t/%s/r%d/d%d/x HTTP/1.1", method, tok, respSize, delayMs))
+	leaf := "x"
+	var keep []rawhttp.Field
+	for _, f := range extra {
+		if f.Name == ":paced" {
+			leaf = "paced"
+		} else {
+			keep = append(keep, f)
+		}
+	}
+	extra = keep
+	w.Line(fmt.Sprintf("%s /t/%s/r%d/d%d/%s HTTP/1.1", method, tok, respSize, delayMs, leaf))
 	w.Field("Host", host)
 	w.Field("X-Tok", tok)
 	w.Field("Accept-Encoding", "identity")
